@@ -223,6 +223,16 @@ class ReadPduTask(Task):
             if env.path == "self._recv_pdu" and method == "put":
                 I.trace.append(Ev("put_pdu", (args[0],)))
                 return None
+            if env.path == "pdu" and method == "to_primitive":
+                # conversion of a decoded PDU: succeeds or raises (reserved / out-of-range parameter values, titles or UIDs
+                # that are not legal) - decided by the PDU's content, which the peer controls
+                g = I.ghost
+                if "convertible" not in g:
+                    g["convertible"] = I.choose(2, "the decoded PDU converts to a primitive") == 0
+                I.trace.append(Ev("to_primitive", (env,)))
+                if not g["convertible"]:
+                    raise PyRaise(ExcVal("ValueError", ("invalid parameter value",)))
+                return Env("primitive")
             return NotImplemented
         c.env_call = env_call
         return c
@@ -251,6 +261,15 @@ class ReadPduTask(Task):
         I.ob(f"C02/{READ}/event-is-a-receive-event", ev in S.PDU_EVENTS or ev in ("Evt17", "Evt19"), detail=repr(ev))
         I.ob(f"C02/{READ}/queues-a-PDU-iff-the-event-is-a-PDU-event",
              (len(puts) == 1) == (ev in S.PDU_EVENTS), detail=f"event={ev} puts={len(puts)}")
+        # ---------------- C02 (d): only a PDU that converts to a primitive reaches the state machine (whose actions convert
+        # it again, outside any handler: an exception there ends the reactor thread)
+        if puts:
+            conv = [e for e in I.trace if e.name == "to_primitive" and e.args[0] is puts[0]]
+            I.ob(f"C02/{READ}/a-PDU-is-queued-for-the-state-machine-only-after-it-converted-to-a-primitive",
+                 bool(conv) and g.get("convertible") is True and I.trace.index(conv[0]) < I.trace.index(next(e for e in I.trace if e.name == "put_pdu")),
+                 detail="the PDU is queued without a conversion check" if not conv else "queued although the conversion raised")
+        if g.get("convertible") is False:
+            I.ob(f"C02/{READ}/a-PDU-that-does-not-convert-is-reported-as-Evt19-and-not-queued", ev == "Evt19" and not puts, detail=f"{ev}")
         # ---------------- C03: framing
         have_hdr = eof - p0 >= 6
         hb = [st[p0 + i] for i in range(6)]
